@@ -444,4 +444,65 @@ theorem lemma_leaf_slice (hP : FloatSane P) (g : Getter) (hs : srcOK g.src = tru
         right
         exact ⟨none, by simp, lemma_holdsV_refl_none iv⟩
 
+
+/-- a leaf field the loop does not resolve (no value, no default): the oracle expects it untouched -/
+theorem lemma_unwanted (g : Getter) (hs : srcOK g.src = true) (f : FieldInfo) (l : Leaf) (hl : LeafLink P g f l)
+    (hleaf : leafTy f.ty = true) (hw : wants g f = false) (m0 : List (Bytes × Val)) :
+    ambiguous g.src l = true ∨ none ∈ (expectV P cfg g.src l m0).oks := by
+  have hw' : (lookupField g f).2.2 = false ∧ f.dflt.isEmpty = true := by
+    simp only [wants, Bool.or_eq_false_iff] at hw
+    exact ⟨hw.1.2, by simpa using hw.2⟩
+  have hnm : isMapTy f.ty = false := by
+    simp only [wants, Bool.or_eq_false_iff] at hw
+    exact hw.1.1.1
+  cases hamb : ambiguous g.src l with
+  | true => exact Or.inl rfl
+  | false =>
+    right
+    unfold ambiguous at hamb
+    unfold expectV
+    rw [hl.ty] at hamb ⊢
+    -- scalar shapes and slice shapes; maps are always resolved
+    have scalar : ∀ (p : Prim) (isPtr : Bool), l.keys.any (ambiguousKey g.src l.nested) = false →
+        none ∈ (expectScalar P cfg g.src l p isPtr).oks := by
+      intro p isPtr ha
+      have hkeys := lemma_amb_scalar g f l hl.keys hl.nested ha
+      have hlook := lemma_lookup g hs f (fun k hk => (hkeys k hk).1)
+      unfold expectScalar
+      rw [hl.keys]
+      cases hfp : firstPresent g.src ((f.tagName :: f.aliases).map (g.pre ++ ·)) with
+      | some vs =>
+        rw [hfp] at hlook
+        obtain ⟨key, _, _, hlf⟩ := hlook
+        rw [hlf] at hw'
+        simp at hw'
+      | none => simp [hl.dflt, hw'.2]
+    have slice : ∀ (e : Ty) (isPtr : Bool),
+        l.keys.any (fun k => l.nested && g.src.kvs.any (fun x => hasPrefix x.1 (k ++ B "."))) = false →
+        none ∈ (expectSlice P cfg g.src l e isPtr).oks := by
+      intro e isPtr ha
+      have hdot := lemma_amb_slice g f l hl.keys hl.nested ha
+      have hlook := lemma_lookup g hs f hdot
+      unfold expectSlice
+      rw [hl.keys]
+      cases hfp : firstPresent g.src ((f.tagName :: f.aliases).map (g.pre ++ ·)) with
+      | some vs =>
+        rw [hfp] at hlook
+        obtain ⟨key, _, _, hlf⟩ := hlook
+        rw [hlf] at hw'
+        simp at hw'
+      | none => simp
+    cases hty : f.ty with
+    | prim p => rw [hty] at hamb; simp only; exact scalar p false hamb
+    | slice e => rw [hty] at hamb; simp only; exact slice e false hamb
+    | map e => simp [hty, isMapTy] at hnm
+    | struct fs => simp [hty, leafTy] at hleaf
+    | ptr e =>
+      cases e with
+      | prim p => rw [hty] at hamb; simp only; exact scalar p true hamb
+      | slice e' => rw [hty] at hamb; simp only; exact slice e' true hamb
+      | map e' => simp [hty, isMapTy] at hnm
+      | struct fs => simp [hty, leafTy] at hleaf
+      | ptr e' => simp [hty, leafTy] at hleaf
+
 end Rivaas.Bind
